@@ -40,6 +40,7 @@ type outcome struct {
 
 type explorer struct {
 	c     *fw.Ctx
+	slot  int // watchdog slot of the worker running this explorer
 	idx   int
 	in    inst
 	acts  []roview.Action
@@ -79,6 +80,7 @@ func pathKey(p []int) string {
 // replay builds a fresh value and executes path on it; the results of the
 // path's own calls are compared with the baseline.
 func (e *explorer) replay(path []int, out *outcome) (any, []held, bool) {
+	fw.Beat(e.slot) // progress: the previous replay's calls all returned
 	v, hs := e.in.build()
 	for k, ai := range path {
 		r := roview.Exec(v, e.acts[ai])
